@@ -2,7 +2,7 @@
 import ast
 
 from sa.core import AnalysisError, unparse, walk_no_nested
-from sa.abseval import track_block, Unknown
+from sa.abseval import track_block, Unknown, Opaque
 
 TRACKED = {'hostkey_min_good', 'cakey_min_good', 'hostkey_min_warn', 'cakey_min_warn', 'hostkey_warn_str', 'cakey_warn_str', 'key_fail_comments', 'key_warn_comments'}
 
@@ -22,36 +22,19 @@ def class_consts(repo, ce, modname, clsname):
 
 
 def rating_block(repo):
+    """(perform_test, anchor node for reports) -- the rating itself is obtained by interpreting the whole probe (probe() below), not a block of it"""
     pt = repo.func('hostkeytest', 'HostKeyTest.perform_test')
-    blocks = [n for n in walk_no_nested(pt) if isinstance(n, ast.If) and unparse(n.test) == 'hostkey_modulus_size > 0 or ca_modulus_size > 0']
-    if len(blocks) != 1:
-        raise AnalysisError('rating block `if hostkey_modulus_size > 0 or ca_modulus_size > 0` not found in perform_test')
-    return pt, blocks[0]
+    return pt, pt
 
 
 def rate_key(blk, consts, host_key_type, cert, size, ca_type, ca_size, on_eval=None, repo=None):
-    """(failure comments, warning comments) the probe attaches to a host key of that type and size.  The rating block is interpreted with
-    sa/listinterp.py; helper methods of HostKeyTest it calls (threshold tables factored into a function) are interpreted in place."""
-    from sa.listinterp import Interp
-    from sa.core import call_name
-    env = dict(consts)
-    env.update({'cert': cert, 'host_key_type': host_key_type, 'hostkey_modulus_size': size, 'ca_key_type': ca_type, 'ca_modulus_size': ca_size, 'key_fail_comments': [], 'key_warn_comments': []})
-
-    def resolver(call):
-        nm = call_name(call) or ''
-        if repo is not None and nm.startswith(('HostKeyTest.', 'cls.', 'self.')) and repo.has_func('hostkeytest', 'HostKeyTest.' + nm.split('.', 1)[1]):
-            return repo.func('hostkeytest', 'HostKeyTest.' + nm.split('.', 1)[1])
-        return None
-    try:
-        finals = Interp(resolver=resolver).run([blk], env)
-    except Unknown as e:
-        raise AnalysisError('rating block not interpretable: %s' % e)
+    """(failure comments, warning comments) the probe attaches to a host key of that type and size: HostKeyTest.perform_test is interpreted with
+    sa/listinterp.py for a server that offers this one key type; helper methods it calls are interpreted in place."""
+    ev_ = probe(repo, consts, [(host_key_type, cert, size, ca_type, ca_size)])
     if on_eval:
         on_eval()
-    if len(finals) != 1 or finals[0].get('<forks>'):
-        raise AnalysisError('rating block: outcome depends on a condition the analysis does not model: %s' % [f.get('<forks>') for f in finals][:2])
-    fe = finals[0]
-    return list(fe['key_fail_comments']), list(fe['key_warn_comments'])
+    r = ev_['table'].get(host_key_type, [])
+    return (list(r[1]) if len(r) > 1 else []), (list(r[2]) if len(r) > 2 else [])
 
 
 def loop_carried_into_table(repo):
@@ -310,3 +293,110 @@ def blob_layout_problems(repo):
         elif ca_calls:
             problems.append((ktype, 'the CA parser runs for a plain %s key' % ktype))
     return rr, len(BLOBS), problems
+
+
+# ---------------------------------------------------------------------------------------------------------------------------------------
+# the probe as a whole, by interpretation: measured (type, size, CA type, CA size) -> what lands in the rating table / the host key record
+# ---------------------------------------------------------------------------------------------------------------------------------------
+class _Tok:
+    def __init__(self, name, attrs=None):
+        self.name = name
+        self.attrs = attrs or {}
+
+    def __repr__(self):
+        return self.name
+
+    def __deepcopy__(self, memo):
+        return self
+
+
+def probe(repo, consts, measurements, offered=None, table=None):
+    """Interpret HostKeyTest.perform_test along its no-exception path for the host-key types in `measurements` = [(type, cert, size, ca type, ca size)]
+    (in that order; every one offered by the server unless `offered` says otherwise).
+    -> {'table': {type: rows}, 'records': [(type, size, ca type, ca size)], 'connects': n, 'closes': n, 'kexinits': [...]}"""
+    from sa.listinterp import Interp
+    from sa.core import call_name
+    pt = repo.func('hostkeytest', 'HostKeyTest.perform_test')
+    params = [a.arg for a in pt.args.args]
+    need = ['out', 's', 'server_kex', 'kex_str', 'kex_group', 'host_key_types']
+    if params != need:
+        raise AnalysisError('perform_test: parameters are %s, the model expects %s' % (params, need))
+    types = [m[0] for m in measurements]
+    rsa = list(consts.get('HostKeyTest.RSA_FAMILY', []))
+    tbl = table if table is not None else {'key': {t: [['<versions>']] for t in set(types) | set(rsa)}}
+    cur = {'i': -1, 'connected': False}
+    events = {'records': [], 'connects': 0, 'closes': 0, 'kexinits': [], 'inits': 0}
+    by_type = {m[0]: m for m in measurements}
+    server_kex = _Tok('<server_kex>', {'key_algorithms': list(offered if offered is not None else types), 'server': _Tok('<server_kex.server>', {'encryption': ['<enc>'], 'mac': ['<mac>'], 'compression': ['none'], 'languages': ['']})})
+    env = dict(consts)
+    env.update({'out': Opaque(), 'out.debug': False, 's': Opaque(), 'server_kex': server_kex, 'kex_str': '<kex>', 'kex_group': Opaque(),
+                'host_key_types': {m[0]: {'cert': m[1], 'variable_key_len': False} for m in measurements}})
+    state = {'type': None}
+
+    def hook(call, e, interp):
+        t = call_name(call) or unparse(call.func)
+        if t == 's.is_connected':
+            return (True, cur['connected'])
+        if t == 's.connect':
+            cur['connected'] = True
+            events['connects'] += 1
+            return (True, None)
+        if t == 's.close':
+            cur['connected'] = False
+            events['closes'] += 1
+            return (True, None)
+        if t == 's.get_banner':
+            return (True, (Opaque(), [], None))
+        if t == 's.send_kexinit':
+            kw = {k.arg: interp.value(k.value, e) for k in call.keywords if k.arg}
+            events['kexinits'].append(kw)
+            hk = kw.get('hostkeys')
+            state['type'] = hk[0] if isinstance(hk, list) and len(hk) == 1 else None
+            return (True, None)
+        if t == 's.read_packet':
+            return (True, (20, b'payload'))
+        if t == 'SSH2_Kex.parse':
+            return (True, Opaque())
+        if t == 'kex_group.send_init':
+            events['inits'] += 1
+            return (True, None)
+        if t == 'kex_group.recv_reply':
+            return (True, b'<blob of %s>' % (state['type'] or '?').encode())
+        if t in ('kex_group.get_hostkey_size', 'kex_group.get_ca_type', 'kex_group.get_ca_size'):
+            m = by_type.get(state['type'])
+            if m is None:
+                raise Unknown('measurement requested without a probe for one host-key type')
+            return (True, {'kex_group.get_hostkey_size': m[2], 'kex_group.get_ca_type': m[3], 'kex_group.get_ca_size': m[4]}[t])
+        if t == 'server_kex.set_host_key':
+            vals = [interp.value(a, e) for a in call.args]
+            events['records'].append(tuple(vals[:1] + vals[2:5]))
+            return (True, None)
+        if t == 'SSH2_KexDB.get_db':
+            return (True, tbl)
+        if t in ('out.d', 'out.v', 'traceback.format_exc', 'str'):
+            return (True, '')
+        if isinstance(call.func, ast.Attribute) and call.func.attr == 'hex':
+            return (True, '')
+        return None
+
+    def attr_hook(base, attr, interp):
+        if isinstance(base, _Tok):
+            if attr in base.attrs:
+                return (True, base.attrs[attr])
+            raise Unknown('no model value for %r.%s' % (base, attr))
+        return None
+
+    def resolver(call):
+        nm = call_name(call) or ''
+        if nm.startswith(('HostKeyTest.', 'cls.', 'self.')) and repo.has_func('hostkeytest', 'HostKeyTest.' + nm.split('.', 1)[1]) and nm.split('.', 1)[1] not in ('perform_test', 'run'):
+            return repo.func('hostkeytest', 'HostKeyTest.' + nm.split('.', 1)[1])
+        return None
+    try:
+        finals = Interp(call_hook=hook, attr_hook=attr_hook, resolver=resolver, try_normal_path=True, budget=60000).run(pt.body, env)
+    except Unknown as ex:
+        raise AnalysisError('perform_test cannot be interpreted: %s' % ex)
+    if len(finals) != 1 or finals[0].get('<forks>'):
+        raise AnalysisError('perform_test: outcome depends on a condition the analysis does not model: %s' % [f.get('<forks>') for f in finals][:2])
+    events['table'] = tbl['key']
+    events['crash'] = finals[0].get('<crash>')
+    return events
